@@ -293,8 +293,8 @@ def tensordot(a, b, axes, node=None):
     if any(j < 0 for j in ibs) and not b.ndim_known:
         raise AnalysisError("AXTYPE", "negative axis index on an array with opaque trailing axes")
     ibs = [_norm_axis(j, nb, node) for j in ibs]
-    hist = list(b.history) if b.content is not None and (a.content is None or a.content[0] in ("transform", "ext", "attr")) else list(a.history)
-    main = b if (a.content is None or a.content[0] in ("transform", "ext", "attr")) else a
+    hist = list(b.history) if b.content is not None and (a.content is None or a.content[0] in ("transform", "ext", "attr", "identity")) else list(a.history)
+    main = b if (a.content is None or a.content[0] in ("transform", "ext", "attr", "identity")) else a
     other = a if main is b else b
     new_axes_a = [x for k, x in enumerate(a.axes) if k not in ias]
     new_axes_b = [x for k, x in enumerate(b.axes) if k not in ibs]
